@@ -60,10 +60,10 @@ class El:
 
 def gen(rng, depth, names, cnt, active, path=()):
     """active: names locally bound by an enclosing element (a global define must not hit those)."""
-    kind = rng.choice(['define', 'define', 'gdefine', 'repeat', 'trepeat', 'tdefine', 'plain', 'usemacro', 'define2', 'lambda'])
-    if kind == 'gdefine':
+    kind = rng.choice(['define', 'define', 'gdefine', 'gmixed', 'repeat', 'trepeat', 'tdefine', 'plain', 'usemacro', 'define2', 'lambda'])
+    if kind in ('gdefine', 'gmixed'):
         cands = [n for n in names if n not in active]
-        if not cands:
+        if not cands or (kind == 'gmixed' and len(names) < 2):
             kind = 'plain'
     if kind in ('define',):
         binds = [(n, next(cnt) if rng.random() < .85 else None) for n in rng.sample(names, rng.randint(1, 2))]
@@ -75,6 +75,10 @@ def gen(rng, depth, names, cnt, active, path=()):
         binds = [(n, next(cnt)), (n, next(cnt))]          # "n 1; n 2": later parts see (and here rebind) earlier ones
     elif kind == 'gdefine':
         binds = [(n, next(cnt)) for n in rng.sample(cands, 1)]
+    elif kind == 'gmixed':
+        # "global g 1; l 2": the keyword belongs to its own part only - l is an ordinary local definition
+        g = rng.choice(cands)
+        binds = [(g, next(cnt)), (rng.choice([n for n in names if n != g]), next(cnt))]
     elif kind == 'repeat':
         binds = [(rng.choice(names), next(cnt))]
         same = [p for p in path if p[0] == 'repeat']
@@ -94,6 +98,8 @@ def gen(rng, depth, names, cnt, active, path=()):
     act2 = set(active)
     if kind in ('define', 'define2', 'repeat', 'trepeat', 'tdefine'):
         act2 |= {n for n, v in binds}
+    if kind == 'gmixed':
+        act2.add(binds[1][0])
     kids = []
     if depth < 3 and kind != 'usemacro':
         kids = [gen(rng, depth + 1, names, cnt, act2, path + ((kind, tuple(binds)),)) for _ in range(rng.randint(0, 2))]
@@ -106,6 +112,8 @@ def ser(n, names):
         a = ' tal:define="%s"' % '; '.join('%s %s' % b for b in n.binds)
     elif n.kind == 'gdefine':
         a = ' tal:define="%s"' % '; '.join('global %s %d' % b for b in n.binds)
+    elif n.kind == 'gmixed':
+        a = ' tal:define="global %s %d; %s %d"' % (n.binds[0] + n.binds[1])
     elif n.kind == 'tdefine':
         a = ' tal:define="(%s, %s) (%d, %d)"' % (n.binds[0][0], n.binds[1][0], n.binds[0][1], n.binds[1][1])
     elif n.kind == 'repeat':
@@ -193,6 +201,12 @@ class Interp:
             for name, v in n.binds:
                 env[name] = v
                 self.globals[name] = v
+            body()
+        elif n.kind == 'gmixed':
+            (gname, gv), (lname, lv) = n.binds
+            env[gname] = gv
+            self.globals[gname] = gv
+            bind(lname, lv)
             body()
         elif n.kind == 'repeat':
             name, v = n.binds[0]
@@ -319,7 +333,7 @@ def layer_probes(ctx, n, mscope):
         ctx.case(key=(shape(root), tuple(n_ in BUILTIN_NAMES for n_ in names), tuple(sorted(pre))),
                  nontrivial=has_collision(root, pre),
                  sample={'source': src, 'prebound': pre, 'rendered': got} if case < 2 else None)
-        globs = {b[0] for b in all_binds(root, 'gdefine')} | {MACRO_G, GK}
+        globs = {b[0] for b in all_binds(root, 'gdefine')} | {b[0] for b in list(all_binds(root, 'gmixed'))[::2]} | {MACRO_G, GK}
         mscope.check(kw, globs, 'probe program')
         if got != want[0]:
             key = 'probe-output-differs'
